@@ -30,7 +30,9 @@ var (
 func OpenKV(ctx context.Context, s3opts S3Options, subdir string) (*KV, error) {
 	var err error
 	var c kv.S3Interface
-	if s3opts.Bucket == "" {
+	if vc, ok := verifS3(&s3opts); ok {
+		c = vc
+	} else if s3opts.Bucket == "" {
 		if s3opts.Endpoint != "" {
 			return nil, fmt.Errorf("s3_endpoint specified without s3_bucket")
 		}
